@@ -311,8 +311,9 @@ func Check(a reflect.Value, s *TypeSpec, v *Val, m EqMode, path string) error {
 			return bad("uint %d, expected %d", a.Uint(), v.U)
 		}
 	case "float32":
-		if !float32Eq(float32(a.Float()), math.Float32frombits(uint32(v.F)), m.Strict) {
-			return bad("float32 %x, expected %x", math.Float32bits(float32(a.Float())), uint32(v.F))
+		af := a.Interface().(float32) // not a.Float(): the float64 conversion would quiet a signalling NaN
+		if !float32Eq(af, math.Float32frombits(uint32(v.F)), m.Strict) {
+			return bad("float32 %x, expected %x", math.Float32bits(af), uint32(v.F))
 		}
 	case "float64":
 		if !floatEq(a.Float(), math.Float64frombits(v.F), m.Strict) {
@@ -396,7 +397,9 @@ func Check(a reflect.Value, s *TypeSpec, v *Val, m EqMode, path string) error {
 		at := a.Interface().(time.Time)
 		wt := v.T.Time()
 		if m.Strict {
-			if at != wt {
+			an, aoff := at.Zone()
+			wn, woff := wt.Zone()
+			if !at.Equal(wt) || an != wn || aoff != woff || at.Location().String() != wt.Location().String() {
 				return bad("time %v, expected %v", at, wt)
 			}
 			return nil
